@@ -5,6 +5,7 @@ package main
 import (
 	"fmt"
 	"go/constant"
+	"go/token"
 	"go/types"
 	"sort"
 	"strings"
@@ -68,6 +69,99 @@ func constStrings(p *Prog, v ssa.Value) []string {
 }
 
 func runC18(c *Ctx) {
+	// a persisted (or overridden) iat-mode that the range check refuses blocks every later start
+	{
+		p := c.P
+		ob := c.Obl("R3", "transports/obfs4:serverStateFromJSONServerState#iat-range", "the iat-mode the state builder lets through ranges over exactly [0,2]: the smallest and the largest mode a bridge can run are both accepted, nothing outside is")
+		fn := p.Func("transports/obfs4:serverStateFromJSONServerState")
+		if fn == nil {
+			ob.Undecide("not found")
+		} else {
+			b := p.NewBounds()
+			bad := ""
+			n := 0
+			for _, s := range p.Stores("transports/obfs4.obfs4ServerState", "iatMode") {
+				if s.Fn != fn {
+					continue
+				}
+				n++
+				// the interval the path conditions leave for the persisted mode (every load of js.IATMode is
+				// the same value: the builder does not write it)
+				lo, hi := int64(-1<<62), int64(1<<62)
+				for _, f := range p.Facts(fn).NC(s.Instr.Block()) {
+					bo, ok := f.Cond.(*ssa.BinOp)
+					if !ok {
+						continue
+					}
+					x, y, op := bo.X, bo.Y, bo.Op
+					if _, isC := x.(*ssa.Const); isC {
+						x, y = y, x
+						switch op {
+						case token.LSS:
+							op = token.GTR
+						case token.LEQ:
+							op = token.GEQ
+						case token.GTR:
+							op = token.LSS
+						case token.GEQ:
+							op = token.LEQ
+						}
+					}
+					k, isK := intConst(y)
+					if !isK {
+						continue
+					}
+					unsigned := false
+					if cv, isCv := x.(*ssa.Convert); isCv {
+						if bt, ok := cv.Type().Underlying().(*types.Basic); ok && bt.Info()&types.IsUnsigned != 0 {
+							unsigned = true
+						}
+						x = cv.X
+					}
+					if !isFieldLoad(unspill(x), "transports/obfs4.jsonServerState", "IATMode") {
+						continue
+					}
+					if !f.Pol {
+						op = negOp(op)
+					}
+					switch op {
+					case token.LSS:
+						if k-1 < hi {
+							hi = k - 1
+						}
+					case token.LEQ:
+						if k < hi {
+							hi = k
+						}
+					case token.GTR:
+						if k+1 > lo {
+							lo = k + 1
+						}
+					case token.GEQ:
+						if k > lo {
+							lo = k
+						}
+					}
+					if unsigned && (op == token.LSS || op == token.LEQ) && lo < 0 {
+						lo = 0
+					}
+				}
+				_ = b
+				if lo != 0 || hi != 2 {
+					bad = fmt.Sprintf("the iat-mode that reaches the state ranges over [%d,%d], expected [0,2]", lo, hi)
+				}
+			}
+			switch {
+			case n == 0:
+				ob.Undecide("no store of the iat-mode")
+			case bad != "":
+				ob.Violate("%s", bad)
+			default:
+				ob.HoldNT("iatMode in [0,2], both ends reachable")
+			}
+		}
+	}
+	mapValuesOwnAlloc(c, c.P, "R2", "transports/scramblesuit:loadTicketStore", "ticket")
 	if !importing {
 		// the ticket store "at worst is forgotten but never blocks start-up": what serialize writes must be
 		// something loadTicketStore accepts (C15's serialize rule)
